@@ -16,6 +16,7 @@ package transport
 //@   ensures err == nil ==> n == len(p) && n >= 0
 
 //@ iface transport.Transport.Close() (err)
+//@   ghostset closed(self) = true
 
 // ---------------------------------------------------------------- implementations
 
@@ -41,4 +42,20 @@ package transport
 //@   requires[C10] t != nil && t.Conn != nil
 //@   assigns *
 //@   ensures[C06] count: err == nil ==> n == len(b)
+//@   nopanic[C10]
+
+//@ func (*LegacyPKT).Close
+//@   requires[C10] t != nil && t.Conn != nil
+//@   ghostset closed(box(t)) = true
+//@   ensures[C11] conn: closed(t.Conn)
+//@   nopanic[C10]
+
+//@ func (*WSPKT).Close
+//@   requires[C10] t != nil && t.Conn != nil
+//@   ghostset closed(box(t)) = true
+//@   ensures[C11] conn: closed(box(t.Conn))
+//@   nopanic[C10]
+
+//@ func NewWS
+//@   ensures result0 != nil && fresh(result0) && result0.Conn == c && result1 == nil
 //@   nopanic[C10]
